@@ -928,7 +928,8 @@ func (vc *VC) frameObligations(st *State, reach string) {
 		var conj []string
 		switch {
 		case strings.HasPrefix(n, "E."):
-			conj = append(conj, fmt.Sprintf("(< (base %s) alloc!0)", r), fmt.Sprintf("(>= (base %s) 0)", r))
+			// (the nil array 0 has no elements: a nil slice has length 0)
+			conj = append(conj, fmt.Sprintf("(< (base %s) alloc!0)", r), fmt.Sprintf("(>= (base %s) 0)", r), fmt.Sprintf("(> %s 0)", r))
 		case strings.HasPrefix(n, "GH."):
 			// ghost state attached to objects (key type is a pointer or map type): the entries of objects allocated by
 			// this activation are new, not part of the caller-visible frame
